@@ -387,3 +387,31 @@ def rule_inout_used(ctx, files=None, callees=None, floor=5):
                     ctx.violated("INOUT", key, f.where(c[5]), "%s() reads and rewrites `%s` in place, but `%s` is never read after the call: the rewritten value is lost" % (c[1], v, v))
     ctx.floor("INOUT", floor, n, "(call sites passing &local to an in-out parameter)")
     return n
+
+
+def rule_access_from_mode(ctx):
+    """ACCMODE (C14): the shared start-access routine of each special-element kind is called with the access mode that was
+    requested (`acc_mode`); Hwrite's only permission test is `access_rec->access & DFACC_WRITE`, so the routine must derive
+    `access_rec->access` from that parameter.  A constant there hands write access to every read opener."""
+    prog = ctx.prog
+    n = 0
+    for f in prog.lib_funcs():
+        pn = [p[0] for p in f.params]
+        if "acc_mode" not in pn:
+            continue
+        stores = []
+        for _b, _i, st, x in f.nodes(True):
+            if x[0] == "asg" and x[1] == "=" and mem_field(x[2]) == ("accrec_t", "access"):
+                stores.append(x)
+        if not stores:
+            continue
+        for i, x in enumerate(stores):
+            n += 1
+            key = "ACCMODE:%s#%d" % (f.name, i + 1)
+            if any(y[0] == "var" and y[1] == "acc_mode" for y in walk(x[3], True)):
+                ctx.holds("ACCMODE", key, f.where(x[4]), "`%s`" % render(x)[:70], nontrivial=True)
+            else:
+                ctx.violated("ACCMODE", key, f.where(x[4]), "`%s` does not depend on the requested access mode: an element opened for reading gets the same access bits as one opened for writing, "
+                             "and Hwrite's permission test passes on it" % render(x)[:70])
+    ctx.floor("ACCMODE", 4, n, "(stores to access_rec->access in mode-parameterised start-access routines)")
+    return n
